@@ -115,12 +115,12 @@ func C02(c *Ctx) {
 
 // C13 — non-generator code is behaviourally unchanged.
 func C13(c *Ctx) {
-	progs := cases.Opt()
-	c.Rep.Rule = "bystander declarations (closures of the shape func(ps){return f(ps)} over mutable function variables, method values, builtins, conversions, generic/variadic callees, widening results; constants, initialisers, methods) co-located with a generator; the SOURCE package built natively is the reference, the generated package must produce the same result/effect trace and must build. distinct = program x tape."
+	progs := append(cases.Opt(), cases.OptGen()...)
+	c.Rep.Rule = "ordinary closures inside generator bodies (three-clause loops capturing their variable, labelled loops, switch initialisers, defer; method values / function variables called after a yield) compared with the reference coroutine, and bystander declarations (closures of the shape func(ps){return f(ps)} over mutable function variables, method values, builtins, conversions, generic/variadic callees, widening results; constants, initialisers, methods) co-located with a generator; the SOURCE package built natively is the reference, the generated package must produce the same result/effect trace and must build. distinct = program x tape."
 	RunE1(c, E1Spec{
 		Programs:             progs,
 		Opts:                 e1.Opts{},
-		Kinds:                []string{"NC-full", "STUB"},
+		Kinds:                []string{"NC-full", "CR-full", "STUB"},
 		AcceptanceViolations: true,
 		MinDistinct:          2,
 	})
